@@ -204,6 +204,17 @@ func newOperation(expr parser.ItemType, vectorBinOp bool) (operation, error) {
 }
 
 // btof returns 1 if b is true, 0 otherwise.
+// shouldDropMetricName mirrors the Prometheus engine: the metric name is
+// dropped by the arithmetic operators and whenever bool turns a comparison
+// into a 0/1 value.
+func shouldDropMetricName(op parser.ItemType, returnBool bool) bool {
+	switch op {
+	case parser.ADD, parser.SUB, parser.DIV, parser.MUL, parser.POW, parser.MOD:
+		return true
+	}
+	return returnBool
+}
+
 func btof(b bool) float64 {
 	if b {
 		return 1
